@@ -10,6 +10,9 @@
 //	c10 hist  session histories: 2..5 consecutive Run calls on one connected
 //	          network (hist.go); `hist` op lines replayed on the model's fold
 //	          over the state a Network keeps between two calls
+//	c10 ext   extreme circuits (ext.go): AND depth, level width, outputs and
+//	          input widths across 2^8 and 2^16; level oracle on the real
+//	          AssignLevels output; `lvl` op lines
 //	c10 pool  Triples.Append / TriplePool.Get op sequences (with arrivals
 //	          racing a blocked Get) and the bit-vector leaf functions
 //	c10 tb    tripleBatch at n parties over in-memory connections with
@@ -35,7 +38,7 @@ import (
 
 func main() {
 	if len(os.Args) < 2 {
-		fmt.Fprintln(os.Stderr, "usage: c10 sess|hist|pool|tb ...")
+		fmt.Fprintln(os.Stderr, "usage: c10 sess|hist|ext|pool|tb ...")
 		os.Exit(2)
 	}
 	// the gmw package prints progress lines on stdout
@@ -47,6 +50,8 @@ func main() {
 		sessMode(os.Args[2:])
 	case "hist":
 		histMode(os.Args[2:])
+	case "ext":
+		extMode(os.Args[2:])
 	case "pool":
 		poolMode(os.Args[2:])
 	case "tb":
@@ -256,8 +261,12 @@ func failBase(cf *hxlib.CommonFlags, cfg *sessCfg) map[string]any {
 	d := map[string]any{
 		"case": cfg.idx, "seed": cf.Seed, "prog": cfg.pc.name, "kind": cfg.pc.kind, "parties": len(cfg.inputs),
 		"inputs_hex": ins, "mode": cfg.mode,
-		"rerun":      fmt.Sprintf("hx-c10 sess -seed %d -n %d -only %d -tier %s", cf.Seed, cf.N, cfg.idx, cf.Tier),
 	}
+	hx := cfg.hx
+	if hx == "" {
+		hx = "sess"
+	}
+	d["rerun"] = fmt.Sprintf("hx-c10 %s -seed %d -n %d -only %d -tier %s", hx, cf.Seed, cf.N, cfg.idx, cf.Tier)
 	if cfg.pc.src != "" {
 		d["src"] = cfg.pc.src
 	} else {
@@ -296,6 +305,9 @@ func evaluate(o *hxlib.Out, cf *hxlib.CommonFlags, cfg *sessCfg, so *sessOut) {
 	o.Count("sessions_" + cfg.mode)
 	o.Count(fmt.Sprintf("parties_%d", n))
 	o.Count("kind_" + cfg.pc.kind)
+	// the gate levels of the real AssignLevels(TargetGMW) are a topological schedule of Network.run (judged on
+	// every return path, reported after the failures of the session itself)
+	defer checkLevels(o, base, c)
 	need, batches := circuitNeed(c)
 	o.CountN("and_levels", len(batches))
 	for _, k := range batches {
